@@ -1093,6 +1093,16 @@ func init() {
 						}
 					}
 					if loop == nil {
+						// stepped in a callback that an internal iterator of the package calls once per element of
+						// a slice of parsed forms (`forEachTopLevelForm(exprs, func(expr, head, pkg) { … counts[k]++ })`)
+						if drv, _, _, over, ok := c.callbackDriver(u, inc); ok {
+							if xt, ok := info.Types[over]; ok {
+								if sl, ok := xt.Type.Underlying().(*types.Slice); ok && isLValPtr(c, sl.Elem()) {
+									obs = append(obs, mkOb(c, rid, u, construct, inc, Proved, "stepped once per parsed form of `"+types.ExprString(over)+"` (callback driven by "+drv.Name()+")", true))
+									return true
+								}
+							}
+						}
 						obs = append(obs, mkOb(c, rid, u, construct, inc, Violated, "the counter is stepped outside any loop over parsed forms", true))
 						return true
 					}
